@@ -20,6 +20,7 @@ Not decided: real socket behaviour.
 """
 import ast
 
+from ..engine.inline import norm_text
 from ..engine.model import AnalysisError, src, walk_own
 from ..engine.flow import Flow
 from ..engine.inline import resolved_in_block
@@ -627,6 +628,59 @@ class Checker:
                            line=node.lineno)
         rep.count('functions scanned for table writers', n)
 
+    def r198(self):
+        """spin(n) runs its rounds whatever happened before.  A hub field that spin both tests and writes (a latch such as a re-entrancy flag)
+        must be back at its initial value on every way out of spin on which it was written; otherwise one early exit silences every later
+        spin - nothing is sent, forwarded or given to the sinks any more."""
+        from ..engine.paths import paths_of
+        rep = self.rep
+        rep.rule('R19.8', 'spin leaves no latch behind: a field of the hub that spin tests and writes has its initial value again on every exit of spin '
+                          'on which it was written')
+        sp = self.comms.methods.get('spin')
+        if sp is None:
+            raise AnalysisError('anchor vanished: Comms.spin')
+
+        def field(e):
+            return e.attr if isinstance(e, ast.Attribute) and isinstance(e.value, ast.Name) and e.value.id == 'self' else None
+        tested = set()
+        for n in walk_own(sp.node):
+            if isinstance(n, (ast.If, ast.While)):
+                tested |= {field(x) for x in ast.walk(n.test) if field(x)}
+        written = {}
+        for n in walk_own(sp.node):
+            if isinstance(n, ast.Assign):
+                for t in n.targets:
+                    if field(t):
+                        written.setdefault(field(t), []).append(n)
+        latches = sorted((tested & set(written)) - set(TABLES))
+        init = {}
+        for n in self.comms.node.body:
+            if isinstance(n, ast.Assign) and len(n.targets) == 1 and isinstance(n.targets[0], ast.Name):
+                init[n.targets[0].id] = norm_text(n.value)
+        ini = self.comms.methods.get('__init__')
+        if ini is not None:
+            for n in walk_own(ini.node):
+                if isinstance(n, ast.Assign):
+                    for t in n.targets:
+                        if field(t):
+                            init[field(t)] = norm_text(n.value)
+        if not latches:
+            rep.ob('R19.8', sp, 'spin tests only its argument and the rule tables', True, 'no field of the hub is both tested and written by spin')
+            return
+        for f_ in latches:
+            v0 = init.get(f_)
+            for pth in paths_of(sp.node, sp.params):
+                if pth.kind not in ('return', 'fall'):
+                    continue
+                st = [e for e in pth.events if e[0] == 'store' and e[1] == 'self.' + f_ and len(e) > 3]
+                if not st:
+                    continue
+                last = norm_text(st[-1][3])
+                rep.ob('R19.8', sp, 'self.%s back at %s on the exit at line %s' % (f_, v0, pth.ret_line or 'end'), v0 is not None and last == v0,
+                       'spin can leave through %s with self.%s = %s (it starts as %s and spin tests it on entry): after that exit every later spin '
+                       'returns at once - sources are not sent, received messages are neither forwarded nor given to the sinks'
+                       % ('line %s' % pth.ret_line if pth.ret_line else 'its end', f_, last, v0), line=pth.ret_line or st[-1][2])
+
     def _table_refs(self, t):
         """tables written by storing to / mutating expression t (any receiver whose attribute is a table name,
         restricted to receivers that can be a Comms: `self` inside Comms, or any non-self receiver)."""
@@ -651,3 +705,4 @@ def check(model, rep):
     ck.r194()
     ck.r195()
     ck.r197()
+    ck.r198()
